@@ -198,7 +198,7 @@ end:
 	if buf[d] == '>' {
 		br.a = false // No Attributes
 		d++
-	} else if buf[d] == ' ' || buf[d] == '\n' { // Attributes
+	} else if isWhiteSpace(buf[d]) { // Attributes
 		br.a = true
 	} else if buf[d] == '/' && buf[d+1] == '>' { // SoloTag
 		br.a = false // No Attributes
@@ -229,7 +229,7 @@ func (br *xmpReader) readTagValue() (buf []byte, err error) {
 			}
 			// removes white space and new lines prefixes
 			for ; i < len(buf); i++ {
-				if buf[i] == ' ' || buf[i] == '\n' {
+				if isWhiteSpace(buf[i]) {
 					continue
 				}
 				break
@@ -340,10 +340,15 @@ func (br *xmpReader) readSeqTags(xmp *XMP, parent Tag) (err error) {
 	return
 }
 
+// isWhiteSpace reports whether c is XML white space (space, tab, CR, LF).
+func isWhiteSpace(c byte) bool {
+	return c == ' ' || c == '\n' || c == '\t' || c == '\r'
+}
+
 func parseAttrName(buf []byte) (xmpns.Property, int, error) {
 	var a, b, c int
 	for ; a < len(buf); a++ {
-		if buf[a] == ' ' || buf[a] == '\n' {
+		if isWhiteSpace(buf[a]) {
 			continue
 		}
 		break
@@ -354,7 +359,7 @@ func parseAttrName(buf []byte) (xmpns.Property, int, error) {
 		}
 	}
 	for c = b + 2; c < len(buf); c++ {
-		if buf[c] == '=' || buf[c] == ' ' {
+		if buf[c] == '=' || isWhiteSpace(buf[c]) {
 			return xmpns.IdentifyProperty(buf[a:b], buf[b+1:c]), c, nil
 		}
 	}
@@ -369,7 +374,7 @@ func parseTagName(buf []byte) (xmpns.Property, int, error) {
 		}
 	}
 	for b = a + 1; b < len(buf); b++ {
-		if buf[b] == '>' || buf[b] == ' ' || buf[b] == '\n' || buf[b] == '/' {
+		if buf[b] == '>' || isWhiteSpace(buf[b]) || buf[b] == '/' {
 			return xmpns.IdentifyProperty(buf[:a], buf[a+1:b]), b, nil
 		}
 	}
